@@ -2,14 +2,18 @@
 (***************************************************************************)
 (* The replicated state machine of a node and its persistence (C01, C07).  *)
 (*                                                                         *)
-(* State = four of the components behind RaftDataHandler, with the         *)
-(* reference semantics of their apply handlers:                            *)
-(*   cfg   config centre: key -> [content, hist]   (ConfigActor)           *)
+(* State = the components behind RaftDataHandler, with the reference       *)
+(* semantics of their apply handlers:                                      *)
+(*   cfg   config centre: key -> [content, ty, desc, hist]  (ConfigActor)  *)
 (*   ns    namespaces:    id  -> name              (NamespaceActor)        *)
 (*   usr   user table:    key -> value             (TableManager, T_USER)  *)
 (*   seq   sequences:     key -> next id           (SequenceDbManager)     *)
-(* (MCP, persistent instances and the cache are driven by the harness with *)
-(* the same request sequences and compared real-vs-real only.)             *)
+(*   nam   persistent service instances: key -> [w, en]   (NamingActor)    *)
+(*   cch   replicated cache: key -> value          (DirectCacheManager)    *)
+(*   tool  MCP tool specs: key -> [cur, vers]      (McpManager)            *)
+(*   srv   MCP servers:    id  -> [name, cur, rel, hist]  (McpManager)     *)
+(*   hid   state of McpManager that no query serves (reference            *)
+(*         bookkeeping), only present under the two MCP Defect_ flags      *)
 (*                                                                         *)
 (* Persistence, one action per step of the code:                           *)
 (*   Apply(r)        append to the log + apply on the leader path          *)
@@ -29,34 +33,58 @@
 (* Defect_NonAtomicCapture: the header index is captured before the        *)
 (* component states, applies may slip in between (the code as it is;       *)
 (* needs a concurrent apply, i.e. a schedule).                             *)
+(* Defect_McpStickyRefs: McpManager keeps "which tool versions are         *)
+(* referenced by a server" incrementally and a count that returns to zero  *)
+(* is not taken out (ToolSpecUtils::add_tool_ref_to_map stores only        *)
+(* non-zero sums); the snapshot does not contain it and a start from a     *)
+(* snapshot recomputes it exactly - so a node that never restarted refuses *)
+(* RemoveToolSpec where a restarted one accepts it.                        *)
+(* Defect_McpRcLostAtSnapshot: the per-version reference count that        *)
+(* decides whether UpdateToolSpec drops the previous version is not in the *)
+(* snapshot and comes back as 0: a restarted node drops a version that a   *)
+(* server still uses.                                                      *)
 (***************************************************************************)
 EXTENDS Naturals, Sequences, FiniteSets, TLC, Json
 
 CONSTANTS
     CKeys, Contents,        \* config keys / contents
+    CTypes, CDescs,         \* config type / description values ("" = not given)
     NsIds, NsNames,
     UKeys, UVals,
     SKeys,
+    IKeys, IWeights,        \* persistent instances: key (service/ip/port), weight
+    CaKeys, CaVals,         \* cache keys / values
+    TKeys, TVals,           \* MCP tool keys / tool definitions
+    SrvIds,                 \* MCP server ids
     HistMax,                \* bound of the per-key change history (real: 100)
     MaxLog, MaxOps,
     Defect_StaleSnapshotTail,
-    Defect_NonAtomicCapture
+    Defect_NonAtomicCapture,
+    Defect_McpStickyRefs,
+    Defect_McpRcLostAtSnapshot
 
 VARIABLES
     log,        \* committed requests, in order
     applied,    \* index of the last applied request
-    sm,         \* live state [cfg, ns, usr, seq]
+    sm,         \* live state
     snaps,      \* catalogue: sequence of [id, end, st] (at most two)
     partial,    \* state left in the file of an interrupted snapshot attempt, or NoState
     capturing,  \* Defect_NonAtomicCapture: header index captured, component states not yet
-    nextHid,    \* next config history id (leader side sequence)
+    nextHid,    \* next id the leader stamps on a request (config history id, tool version, server value id)
     ops, hist
 
 vars == <<log, applied, sm, snaps, partial, capturing, nextHid, ops, hist>>
 
 NoKey == "none"
-Empty == [cfg |-> [k \in {} |-> 0], ns |-> [k \in {} |-> 0], usr |-> [k \in {} |-> 0], seq |-> [k \in {} |-> 0]]
+EmptyF == [k \in {} |-> 0]
+NoHid == [mref |-> {}, mlost |-> {}]
+Empty == [cfg |-> EmptyF, ns |-> EmptyF, usr |-> EmptyF, seq |-> EmptyF,
+          nam |-> EmptyF, cch |-> EmptyF, tool |-> EmptyF, srv |-> EmptyF, hid |-> NoHid]
 NoState == [none |-> TRUE]
+Comps == {"cfg", "ns", "usr", "seq", "nam", "cch", "tool", "srv"}
+
+\* what queries can see
+Obs(st) == [st EXCEPT !.hid = NoHid]
 
 \* ------------------------------------------------------------------ reference semantics
 
@@ -64,12 +92,50 @@ Put(f, k, v) == [x \in (DOMAIN f) \cup {k} |-> IF x = k THEN v ELSE f[x]]
 Del(f, k) == [x \in (DOMAIN f) \ {k} |-> f[x]]
 TailTo(s, n) == IF Len(s) > n THEN SubSeq(s, Len(s) - n + 1, Len(s)) ELSE s
 
+\* ---- MCP: which tool versions the servers reference (McpManager::init_tool_spec_version_ref_map)
+NoValue == [vid |-> 0, tools |-> {}]
+ValueRefs(v) == {<<t.k, t.ver>> : t \in v.tools}
+SrvRefs(s) == ValueRefs(s.cur) \cup ValueRefs(s.rel) \cup UNION {ValueRefs(s.hist[i]) : i \in 1..Len(s.hist)}
+DerivedRefs(st) == UNION {SrvRefs(st.srv[i]) : i \in DOMAIN st.srv}
+
+\* may UpdateToolSpec drop version v of tool k ?   (ToolSpec::update_param: ref_count of the old current version)
+VersionInUse(st, k, v) ==
+    IF Defect_McpRcLostAtSnapshot
+    THEN <<k, v>> \in DerivedRefs(st) /\ <<k, v>> \notin st.hid.mlost
+    ELSE <<k, v>> \in DerivedRefs(st)
+\* may RemoveToolSpec remove tool k ?   (McpManager::remove_tool_spec: tool_spec_version_ref_map)
+ToolInUse(st, k) ==
+    IF Defect_McpStickyRefs
+    THEN \E p \in st.hid.mref : p[1] = k
+    ELSE \E p \in DerivedRefs(st) : p[1] = k
+
+\* McpSimpleTool::to_mcp_tool: the definition a server shows for tool k at version v
+Resolve(st, k, v) ==
+    IF k \in DOMAIN st.tool
+    THEN IF v \in DOMAIN st.tool[k].vers THEN st.tool[k].vers[v]
+         ELSE IF st.tool[k].cur \in DOMAIN st.tool[k].vers THEN st.tool[k].vers[st.tool[k].cur] ELSE ""
+    ELSE ""
+\* the tools parameter of a server update names tools with a version (the sender picks the current one);
+\* the server stores each with the definition found when the update is applied
+ToolsParam(st, T) == {[k |-> k, ver |-> st.tool[k].cur] : k \in T \cap DOMAIN st.tool}
+ToolsOf(st, ts) == {[k |-> t.k, ver |-> t.ver, c |-> Resolve(st, t.k, t.ver)] : t \in ts}
+
+WithHid(st, newRefs, recompute) ==
+    [st EXCEPT !.hid = [mref  |-> IF ~Defect_McpStickyRefs THEN {}
+                                  ELSE IF recompute THEN DerivedRefs(st) ELSE st.hid.mref \cup newRefs,
+                        mlost |-> IF ~Defect_McpRcLostAtSnapshot THEN {} ELSE st.hid.mlost \ newRefs]]
+
 ApplyReq(st, r) ==
     CASE r.t = "cfg_set" ->
-            IF r.k \in DOMAIN st.cfg /\ st.cfg[r.k].content = r.v
-            THEN st                     \* same md5: no new history entry, nothing changes
-            ELSE LET old == IF r.k \in DOMAIN st.cfg THEN st.cfg[r.k].hist ELSE <<>>
-                 IN [st EXCEPT !.cfg = Put(st.cfg, r.k, [content |-> r.v,
+            LET has == r.k \in DOMAIN st.cfg
+                ty  == IF r.ty # "" THEN r.ty ELSE IF has THEN st.cfg[r.k].ty ELSE ""
+                ds  == IF r.ds # "" THEN r.ds ELSE IF has THEN st.cfg[r.k].desc ELSE ""
+            IN
+            IF has /\ st.cfg[r.k].content = r.v
+            THEN \* same md5: no new history entry; type and description follow when given
+                 [st EXCEPT !.cfg = Put(st.cfg, r.k, [st.cfg[r.k] EXCEPT !.ty = ty, !.desc = ds])]
+            ELSE LET old == IF has THEN st.cfg[r.k].hist ELSE <<>>
+                 IN [st EXCEPT !.cfg = Put(st.cfg, r.k, [content |-> r.v, ty |-> ty, desc |-> ds,
                                                           hist |-> TailTo(Append(old, [id |-> r.hid, content |-> r.v]), HistMax)])]
       [] r.t = "cfg_del" -> [st EXCEPT !.cfg = Del(st.cfg, r.k)]
       [] r.t = "ns_set"  -> [st EXCEPT !.ns = Put(st.ns, r.k, r.v)]
@@ -80,20 +146,75 @@ ApplyReq(st, r) ==
       [] r.t = "seq_range" -> [st EXCEPT !.seq = Put(st.seq, r.k, (IF r.k \in DOMAIN st.seq THEN st.seq[r.k] ELSE 1) + r.n)]
       [] r.t = "seq_set" -> [st EXCEPT !.seq = Put(st.seq, r.k, r.n)]
       [] r.t = "seq_del" -> [st EXCEPT !.seq = Del(st.seq, r.k)]
+      \* persistent instances (NamingRaftReq::RegisterInstance / UpdateInstance / RemoveInstance)
+      [] r.t = "nam_set" -> [st EXCEPT !.nam = Put(st.nam, r.k, [w |-> r.w, en |-> r.en])]
+      [] r.t = "nam_del" -> [st EXCEPT !.nam = Del(st.nam, r.k)]
+      \* replicated cache without expiry (CacheManagerRaftReq::Set with nx / xx, Remove, Incr on a number)
+      [] r.t = "cch_set" ->
+            IF (r.m = "nx" /\ r.k \in DOMAIN st.cch) \/ (r.m = "xx" /\ r.k \notin DOMAIN st.cch) THEN st
+            ELSE [st EXCEPT !.cch = Put(st.cch, r.k, r.v)]
+      [] r.t = "cch_del" -> [st EXCEPT !.cch = Del(st.cch, r.k)]
+      \* MCP tool specs
+      [] r.t = "tool_set" ->
+            IF r.k \in DOMAIN st.tool
+            THEN LET t == st.tool[r.k]
+                     v1 == Put(t.vers, r.hid, r.v)
+                     v2 == IF VersionInUse(st, r.k, t.cur) \/ t.cur = r.hid THEN v1 ELSE Del(v1, t.cur)
+                 IN [st EXCEPT !.tool = Put(st.tool, r.k, [cur |-> r.hid, vers |-> v2])]
+            ELSE [st EXCEPT !.tool = Put(st.tool, r.k, [cur |-> r.hid, vers |-> Put(EmptyF, r.hid, r.v)])]
+      [] r.t = "tool_del" ->
+            IF ToolInUse(st, r.k) THEN st          \* refused: "tool spec is used"
+            ELSE [st EXCEPT !.tool = Del(st.tool, r.k)]
+      \* MCP servers: UpdateServer (creates when absent), AddServer (= update + publish),
+      \* PublishCurrentServer, PublishHistoryServer, RemoveServer
+      [] r.t \in {"srv_set", "srv_add"} ->
+            LET has   == r.k \in DOMAIN st.srv
+                old   == IF has THEN st.srv[r.k] ELSE [name |-> "", cur |-> NoValue, rel |-> NoValue, hist |-> <<>>]
+                tools == ToolsOf(st, r.tools)
+                s1    == [old EXCEPT !.name = r.v, !.cur = [vid |-> r.hid, tools |-> tools]]
+                s2    == IF r.t = "srv_add"
+                         THEN [s1 EXCEPT !.rel = s1.cur, !.cur = [vid |-> r.hid + 1, tools |-> tools],
+                                         !.hist = Append(s1.hist, s1.cur)]
+                         ELSE s1
+            IN WithHid([st EXCEPT !.srv = Put(st.srv, r.k, s2)], {<<t.k, t.ver>> : t \in tools}, FALSE)
+      [] r.t = "srv_pub" ->
+            IF r.k \notin DOMAIN st.srv THEN st
+            ELSE LET s == st.srv[r.k]
+                 IN [st EXCEPT !.srv = Put(st.srv, r.k, [s EXCEPT !.rel = s.cur, !.cur = [vid |-> r.hid, tools |-> s.cur.tools],
+                                                                  !.hist = Append(s.hist, s.cur)])]
+      [] r.t = "srv_pubhist" ->
+            IF r.k \notin DOMAIN st.srv THEN st
+            ELSE LET s == st.srv[r.k]
+                     hit == {i \in 1..Len(s.hist) : s.hist[i].vid = r.hid}
+                 IN IF hit = {} THEN st      \* "value not found": nothing changes
+                    ELSE [st EXCEPT !.srv = Put(st.srv, r.k, [s EXCEPT !.rel = s.hist[CHOOSE i \in hit : TRUE]])]
+      [] r.t = "srv_del" ->
+            IF r.k \notin DOMAIN st.srv THEN st
+            ELSE WithHid([st EXCEPT !.srv = Del(st.srv, r.k)], {}, TRUE)
       [] OTHER -> st
 
 RECURSIVE Fold(_, _, _, _)
 Fold(st, l, from, to) == IF from > to THEN st ELSE Fold(ApplyReq(st, l[from]), l, from + 1, to)
 
 \* loading a snapshot = setting every recorded item (a later record of the same key wins)
+Over(b, e) == [k \in (DOMAIN b) \cup (DOMAIN e) |-> IF k \in DOMAIN e THEN e[k] ELSE b[k]]
 MergeOver(base, extra) ==
-    [cfg |-> [k \in (DOMAIN base.cfg) \cup (DOMAIN extra.cfg) |-> IF k \in DOMAIN extra.cfg THEN extra.cfg[k] ELSE base.cfg[k]],
-     ns  |-> [k \in (DOMAIN base.ns) \cup (DOMAIN extra.ns) |-> IF k \in DOMAIN extra.ns THEN extra.ns[k] ELSE base.ns[k]],
-     usr |-> [k \in (DOMAIN base.usr) \cup (DOMAIN extra.usr) |-> IF k \in DOMAIN extra.usr THEN extra.usr[k] ELSE base.usr[k]],
-     seq |-> [k \in (DOMAIN base.seq) \cup (DOMAIN extra.seq) |-> IF k \in DOMAIN extra.seq THEN extra.seq[k] ELSE base.seq[k]]]
+    [cfg |-> Over(base.cfg, extra.cfg), ns |-> Over(base.ns, extra.ns), usr |-> Over(base.usr, extra.usr),
+     seq |-> Over(base.seq, extra.seq), nam |-> Over(base.nam, extra.nam), cch |-> Over(base.cch, extra.cch),
+     tool |-> Over(base.tool, extra.tool), srv |-> Over(base.srv, extra.srv), hid |-> NoHid]
+
+\* McpServer::from_do: the tool definitions of a server are looked up again when a snapshot is loaded,
+\* and the bookkeeping is computed from the loaded servers (load_completed)
+ReValue(st, v) == [v EXCEPT !.tools = {[k |-> t.k, ver |-> t.ver, c |-> Resolve(st, t.k, t.ver)] : t \in v.tools}]
+LoadedFromSnapshot(st) ==
+    LET s1 == [st EXCEPT !.srv = [i \in DOMAIN st.srv |->
+                    [st.srv[i] EXCEPT !.cur = ReValue(st, st.srv[i].cur), !.rel = ReValue(st, st.srv[i].rel),
+                                      !.hist = [j \in 1..Len(st.srv[i].hist) |-> ReValue(st, st.srv[i].hist[j])]]]]
+    IN [s1 EXCEPT !.hid = [mref  |-> IF Defect_McpStickyRefs THEN DerivedRefs(s1) ELSE {},
+                           mlost |-> IF Defect_McpRcLostAtSnapshot THEN DerivedRefs(s1) ELSE {}]]
 
 Requests ==
-         [t : {"cfg_set"}, k : CKeys, v : Contents]
+         [t : {"cfg_set"}, k : CKeys, v : Contents, ty : CTypes, ds : CDescs]
     \cup [t : {"cfg_del"}, k : CKeys]
     \cup [t : {"ns_set"}, k : NsIds, v : NsNames]
     \cup [t : {"ns_del"}, k : NsIds]
@@ -103,6 +224,14 @@ Requests ==
     \cup [t : {"seq_range"}, k : SKeys, n : {3}]
     \cup [t : {"seq_set"}, k : SKeys, n : {10}]
     \cup [t : {"seq_del"}, k : SKeys]
+    \cup [t : {"nam_set"}, k : IKeys, w : IWeights, en : BOOLEAN, upd : BOOLEAN]
+    \cup [t : {"nam_del"}, k : IKeys]
+    \cup [t : {"cch_set"}, k : CaKeys, v : CaVals, m : {"", "nx", "xx"}]
+    \cup [t : {"cch_del"}, k : CaKeys]
+    \cup [t : {"tool_set"}, k : TKeys, v : TVals]
+    \cup [t : {"tool_del"}, k : TKeys]
+    \cup [t : {"srv_set", "srv_add"}, k : SrvIds, v : {"m"}, ts : SUBSET TKeys]
+    \cup [t : {"srv_pub", "srv_pubhist", "srv_del"}, k : SrvIds]
 
 \* ------------------------------------------------------------------ actions
 
@@ -112,37 +241,46 @@ Init ==
     /\ log = <<>> /\ applied = 0 /\ sm = Empty /\ snaps = <<>> /\ partial = NoState
     /\ capturing = 0 /\ nextHid = 1 /\ ops = 0 /\ hist = <<>>
 
-\* the leader stamps a config publish with the next history id
-Stamp(r, h) == IF r.t = "cfg_set" THEN [t |-> r.t, k |-> r.k, v |-> r.v, hid |-> h] ELSE r
+\* the leader stamps a config publish with the next history id, a tool spec with its version, a server
+\* value with its id (AddServer takes two: the value and the value after publishing)
+Inc(r) == IF r.t = "srv_add" THEN 2 ELSE IF r.t \in {"cfg_set", "tool_set", "srv_set", "srv_pub"} THEN 1 ELSE 0
+WithId(r, h) == [x \in (DOMAIN r) \cup {"hid"} |-> IF x = "hid" THEN h ELSE r[x]]
+\* (PublishHistoryServer names a history value: the oldest one the server has, 0 when it has none)
+Stamp(st, r, h) ==
+    IF r.t \in {"srv_set", "srv_add"}
+    THEN [x \in (DOMAIN r) \cup {"hid", "tools"} |-> IF x = "hid" THEN h ELSE IF x = "tools" THEN ToolsParam(st, r.ts) ELSE r[x]]
+    ELSE IF Inc(r) > 0 THEN WithId(r, h)
+    ELSE IF r.t = "srv_pubhist"
+         THEN WithId(r, IF r.k \in DOMAIN st.srv /\ Len(st.srv[r.k].hist) > 0 THEN st.srv[r.k].hist[1].vid ELSE 0)
+         ELSE r
 
 Apply(r0) ==
-    LET r == Stamp(r0, nextHid) IN
+    LET r == Stamp(sm, r0, nextHid) IN
     /\ Len(log) < MaxLog /\ applied = Len(log)
     /\ log' = Append(log, r) /\ applied' = applied + 1
     /\ sm' = ApplyReq(sm, r)
-    /\ nextHid' = IF r.t = "cfg_set" THEN nextHid + 1 ELSE nextHid
+    /\ nextHid' = nextHid + Inc(r0)
     /\ UNCHANGED <<snaps, partial, capturing>>
-    /\ Step([op |-> "apply", index |-> applied + 1, req |-> r, sm |-> sm'])
+    /\ Step([op |-> "apply", index |-> applied + 1, req |-> r, sm |-> Obs(sm')])
 
 \* follower path: two committed requests are handed over in one batch
 ApplyBatch(q1, q2) ==
-    LET r1 == Stamp(q1, nextHid)
-        r2 == Stamp(q2, nextHid) IN
+    LET r1 == Stamp(sm, q1, nextHid)
+        r2 == Stamp(ApplyReq(sm, r1), q2, nextHid + Inc(q1)) IN
     /\ Len(log) + 2 <= MaxLog /\ applied = Len(log)
-    /\ r2.t # "cfg_set" \/ r1.t # "cfg_set"       \* (one history id per step is enough for the model)
     /\ log' = log \o <<r1, r2>> /\ applied' = applied + 2
     /\ sm' = ApplyReq(ApplyReq(sm, r1), r2)
-    /\ nextHid' = IF r1.t = "cfg_set" \/ r2.t = "cfg_set" THEN nextHid + 1 ELSE nextHid
+    /\ nextHid' = nextHid + Inc(q1) + Inc(q2)
     /\ UNCHANGED <<snaps, partial, capturing>>
-    /\ Step([op |-> "apply_batch", index |-> applied + 1, reqs |-> <<r1, r2>>, sm |-> sm'])
+    /\ Step([op |-> "apply_batch", index |-> applied + 1, reqs |-> <<r1, r2>>, sm |-> Obs(sm')])
 
 NextSnapId == IF Len(snaps) = 0 THEN 1 ELSE snaps[Len(snaps)].id + 1
 
-\* what the new snapshot file holds once written
+\* what the new snapshot file holds once written (the snapshot holds what queries see, nothing else)
 FileAfterWrite(st) ==
     IF Defect_StaleSnapshotTail /\ partial # NoState
-    THEN MergeOver(st, partial)         \* records of the interrupted attempt survive behind the new content
-    ELSE st
+    THEN MergeOver(Obs(st), partial)    \* records of the interrupted attempt survive behind the new content
+    ELSE Obs(st)
 
 Compact ==
     /\ applied > 0 /\ (IF Len(snaps) = 0 THEN TRUE ELSE snaps[Len(snaps)].end < applied)
@@ -151,7 +289,7 @@ Compact ==
        IN snaps' = IF Len(snaps) >= 2 THEN <<snaps[Len(snaps)], snap>> ELSE Append(snaps, snap)
     /\ partial' = NoState
     /\ UNCHANGED <<log, applied, sm, capturing, nextHid>>
-    /\ Step([op |-> "compact", upto |-> applied, sm |-> sm])
+    /\ Step([op |-> "compact", upto |-> applied, sm |-> Obs(sm)])
 
 \* Defect_NonAtomicCapture: BuildSnapshot records `applied` first ...
 CaptureBegin ==
@@ -166,25 +304,25 @@ CaptureEnd ==
        IN snaps' = IF Len(snaps) >= 2 THEN <<snaps[Len(snaps)], snap>> ELSE Append(snaps, snap)
     /\ capturing' = 0 /\ partial' = NoState
     /\ UNCHANGED <<log, applied, sm, nextHid>>
-    /\ Step([op |-> "compact_late", upto |-> capturing, sm |-> sm])
+    /\ Step([op |-> "compact_late", upto |-> capturing, sm |-> Obs(sm)])
 
 \* an attempt to write snapshot_<next id> is interrupted after the file was written and before the
 \* catalogue was updated: the file keeps the state captured now
 InterruptSnap ==
     /\ partial = NoState /\ applied > 0 /\ capturing = 0
     /\ (IF Len(snaps) = 0 THEN TRUE ELSE snaps[Len(snaps)].end < applied)
-    /\ partial' = sm
+    /\ partial' = Obs(sm)
     /\ UNCHANGED <<log, applied, sm, snaps, capturing, nextHid>>
-    /\ Step([op |-> "interrupt_snapshot", sm |-> sm])
+    /\ Step([op |-> "interrupt_snapshot", sm |-> Obs(sm)])
 
 Restart ==
     /\ ops > 0 /\ capturing = 0
     /\ (IF Len(hist) = 0 THEN FALSE ELSE hist[Len(hist)].op # "restart")
-    /\ LET base == IF Len(snaps) = 0 THEN Empty ELSE snaps[Len(snaps)].st
+    /\ LET base == IF Len(snaps) = 0 THEN Empty ELSE LoadedFromSnapshot(snaps[Len(snaps)].st)
            from == IF Len(snaps) = 0 THEN 1 ELSE snaps[Len(snaps)].end + 1
        IN sm' = Fold(base, log, from, applied)
     /\ UNCHANGED <<log, applied, snaps, partial, capturing, nextHid>>
-    /\ Step([op |-> "restart", sm |-> sm])      \* the CONTRACT expects the identity
+    /\ Step([op |-> "restart", sm |-> Obs(sm)])      \* the CONTRACT expects the identity
 
 Next ==
     \/ \E r \in Requests : Apply(r)
@@ -198,16 +336,33 @@ Spec == Init /\ [][Next]_vars
 
 \* ------------------------------------------------------------------ properties
 
-\* C07 / reference: the live state is the fold of the applied prefix of the log
-LiveIsFold == sm = Fold(Empty, log, 1, applied)
+\* C07 / reference: what the node serves is the fold of the applied prefix of the log, whatever restarts
+\* and compactions lie behind it (a restarted node answers as one that never restarted)
+LiveIsFold == Obs(sm) = Obs(Fold(Empty, log, 1, applied))
 
 \* C01: restart reproduces the served state exactly (nothing lost, nothing resurrected)
-RestartExact == [][(ops' = ops + 1 /\ hist'[Len(hist')].op = "restart") => sm' = sm]_vars
+RestartExact == [][(ops' = ops + 1 /\ hist'[Len(hist')].op = "restart") => Obs(sm') = Obs(sm)]_vars
 
 \* every catalogued snapshot equals the fold of its prefix
-SnapshotsExact == \A i \in 1..Len(snaps) : snaps[i].st = Fold(Empty, log, 1, snaps[i].end)
+SnapshotsExact == \A i \in 1..Len(snaps) : snaps[i].st = Obs(Fold(Empty, log, 1, snaps[i].end))
 
 Done == ops = MaxOps
 ExportBehaviour == Done => PrintT(<<"REPLAY", ToJson([steps |-> hist])>>)
 View == <<log, applied, sm, snaps, partial, capturing>>
+
+\* ---- thin-case generation (MCP): behaviours in which a tool that some server referred to is changed or removed
+\* later on, with a compaction somewhere - the shapes in which bookkeeping that is kept incrementally, or not
+\* kept in the snapshot, shows.  Exported from the COMPLETE state graph of the small MCP model (one behaviour per
+\* distinct state that qualifies), not sampled.  Restart is the identity in this model and therefore never leads
+\* to a new state; the driver inserts restarts (after compactions, at the end) into the exported behaviours.
+ReqsOf(s) == IF s.op = "apply" THEN <<s.req>> ELSE IF s.op = "apply_batch" THEN s.reqs ELSE <<>>
+RefStep(i, k) == \E n \in 1..Len(ReqsOf(hist[i])) : LET r == ReqsOf(hist[i])[n] IN
+                    r.t \in {"srv_set", "srv_add"} /\ \E t \in r.tools : t.k = k
+ToolStep(j, k) == \E n \in 1..Len(ReqsOf(hist[j])) : LET r == ReqsOf(hist[j])[n] IN
+                    r.t \in {"tool_set", "tool_del"} /\ r.k = k
+ThinMcp ==
+    /\ Len(hist) >= 3
+    /\ \E c \in 1..Len(hist) : hist[c].op = "compact"
+    /\ \E k \in TKeys : \E i \in 1..(Len(hist) - 1) : RefStep(i, k) /\ ToolStep(Len(hist), k)
+ExportThinMcp == ThinMcp => PrintT(<<"REPLAY", ToJson([steps |-> hist])>>)
 =============================================================================
